@@ -129,10 +129,12 @@ def task_base(tier, seed, arg):
 
 
 # ----------------------------------------------------------------------------------------------
-def _steps_triples():
+def _steps_triples(groups=None):
     out = []
     for e in sorted(L.EVENTS):
         for g in L.EVENTS[e]["touches"]:
+            if groups and g not in groups:
+                continue
             for s in ("Pending", "Loaded"):
                 out.append((g, s, e))
     return out
@@ -145,7 +147,10 @@ def _step_history(g, s, e):
 def task_steps(tier, seed, arg):
     t0 = time.time()
     canon = L.canonical()
-    triples = _steps_triples()
+    # arg {"groups": [...]} restricts the step obligations to some lazy groups (used by the properties
+    # about one data family: first touch through an element / isotope / ion of that family)
+    groups = (arg or {}).get("groups") if isinstance(arg, dict) else None
+    triples = _steps_triples(groups)
     progs = [_program(_step_history(*t)) for t in triples]
     results = L.run_many(progs, expect={"public": canon["hash"]})
     violations, samples, notes = [], [], []
